@@ -928,7 +928,16 @@ func blockPanicClass(c *Ctx, f *ssa.Function, p *ssa.Panic, class string) bool {
 		}, 0)
 	case "queued-order-status":
 		return w.Guarded(f, p, func(pr ir.Pred) bool {
-			return cmpIs(pr, "!=", func(x *ir.Expr) bool { _, ok := allStateField(c, x, secPO, "Status"); return ok }, func(y *ir.Expr) bool {
+			return cmpIs(pr, "!=", func(x *ir.Expr) bool {
+				if _, ok := allStateField(c, x, secPO, "Status"); ok {
+					return true
+				}
+				// the test may stand in a helper that is handed the loaded order (`requireAccepted(&po)`): judged at its callers
+				return x.Any(func(z *ir.Expr) bool { return z.Op == "param" }) && liftAll(c, f, x, func(u *ir.Expr) bool {
+					_, ok := allStateField(c, u, secPO, "Status")
+					return ok
+				})
+			}, func(y *ir.Expr) bool {
 				return liftAll(c, f, y, func(z *ir.Expr) bool { return z.Op == "const" && (z.Name == stRaised || z.Name == stAccepted) })
 			})
 		}, 0)
